@@ -126,6 +126,8 @@ TCollectEnd == /\ Is("CollectEnd") /\ Step /\ Must(Sched, "sched_mutex held")
 TSeqBegin == /\ Is("SeqBegin") /\ Step /\ Begin("collect_seq")
              /\ Must((Ev.fresh = 1) = (unfinished = None), "fresh block")
              /\ Must((Ev.has = 1) = (collQ # {}), "input block taken")
+             /\ Must(collQ # {} \/ (eof /\ unfinished # None), "a partly filled block is closed without input only at end of input")
+             /\ Must(collectToken, "collect token free")
              /\ (IF collQ # {} THEN Must(MinBy(collQ).pos = Pos(Ev.maj, Ev.min) /\ MinBy(collQ).left = Ev.left, "head of coll_q") ELSE TRUE)
              /\ DSeqBegin(Ev.tid) /\ Scalars /\ Keep
 TSeqRequeue == /\ Is("SeqRequeue") /\ Step /\ Must(Sched, "sched_mutex held")
@@ -164,13 +166,14 @@ TReorder == /\ Is("Reorder") /\ Step /\ Begin("reorder")
 
 \* ---- writer ----
 TSinkPush == /\ Is("SinkPush") /\ Step /\ Must(Sink, "sink_mutex held")
-             /\ Must(Ev.n = Len(sinkQ), "size(output_q)")
+             \* (the writer may pop between the Reorder event and the physical push)
+             /\ Must(Ev.n <= Len(sinkQ) /\ Ev.n <= cfg.TotOut, "size(output_q)")
              /\ Must(sinkQ # <<>> /\ MetaOf(sinkQ[Len(sinkQ)].pos).size = Ev.size, "pushed buffer is the reordered block")
              /\ UNCHANGED dvars /\ Keep
 TSinkPop == /\ Is("SinkPop") /\ Step /\ Must(Sink, "sink_mutex held")
             /\ Must(sinkQ # <<>>, "output_q not empty")
             /\ Must(MetaOf(Head(sinkQ).pos).size = Ev.size, "popped buffer is the oldest block")
-            /\ DSinkPop /\ Must(Ev.n = Len(sinkQ'), "size(output_q)") /\ Keep
+            /\ DSinkPop /\ Must(Ev.n <= Len(sinkQ'), "size(output_q)") /\ Keep
 TWritten == /\ Is("Written") /\ Step /\ Must(Sched, "sched_mutex held") /\ DWritten /\ Scalars /\ Keep
 TSinkFinish == /\ Is("SinkFinish") /\ Step /\ Must(Sink, "sink_mutex held") /\ UNCHANGED dvars /\ Keep
 TSinkExit == /\ Is("SinkExit") /\ Step /\ Must(sinkQ = <<>> /\ acks = 0, "writer leaves with nothing pending")
